@@ -88,6 +88,10 @@ func c05(r *Report) {
 	}
 
 	r.Guard("C05.R1", "inside a secure session the request is forced to https before any modifier sees it; the core never marks a session insecure", func() {
+		// the secure mark survives whatever else is recorded in the session (a hijack,
+		// a new connection value): no other writer of its storage wipes it
+		flagRules(r, "Session", "MarkSecure", "IsSecure", "(*M.Session).MarkInsecure")
+
 		// who may write URL.Scheme in the proxy core
 		for _, f := range w.Funcs("") {
 			for _, st := range schemeStores(f) {
